@@ -35,7 +35,7 @@ _history = st.lists(st.sampled_from(['x = (1\n', 'def f(:\n', 'y = 2\nprint(y)\n
 def cases(tier):
     programs = st.one_of(CS1.cs1_program(max_statements=6, risk=False).map(lambda p: p['code'][len(CS1.PRELUDE):]),
                          G.syntax_program(depth=2, max_statements=5), G.corpus_strategy(stdlib=False), G.syntax_program(depth=1, max_statements=8),
-                         G.syntax_program(depth=1, max_statements=1), G.expr(2).map(lambda e: e + '\n'))
+                         G.syntax_program(depth=1, max_statements=1), G.expr(2).map(lambda e: e + '\n'), G.valid_commented_program())
     return st.fixed_dictionaries({'code': programs, 'derivation': st.fixed_dictionaries({'frag': st.integers(0, 60), 'steps': _steps})},
                                  optional={'history': _history})
 
